@@ -19,6 +19,7 @@ type solverAnswer struct {
 	Result string  `json:"result"` // unsat | sat | unknown | timeout | error
 	Secs   float64 `json:"time_s"`
 	Output string  `json:"output,omitempty"`
+	Retried bool   `json:"retried_with_larger_budget,omitempty"`
 }
 
 type solverSpec struct {
